@@ -450,6 +450,13 @@ def value_getattr(it, ctx, o, name):
             return 0
         if name == "T":
             return o
+    if isinstance(o, SliceVal):
+        if name == "start":
+            return o.lo
+        if name == "stop":
+            return o.hi
+        if name == "step":
+            return o.step
     if isinstance(o, ExcClass):
         if name == "__name__":
             return o.name
